@@ -139,6 +139,11 @@ class C30(core.Check):
               stmt={'k': 'view', 'x0': 100, 'y0': 100, 'x1': 400, 'y1': 150, 'screen': True, 'fill': 1, 'border': 2}),
             c(view=[50, 40, 100, 90, True], probe=2,
               stmt={'k': 'view', 'x0': 100, 'y0': 100, 'x1': 150, 'y1': 150, 'screen': False, 'fill': 1, 'border': 2}),
+            # false alarm of VERIF_SEED=6: tiled PAINT after an outline in a colour that is not its border (the
+            # outline is no longer drawn for tiled PAINT)
+            c(video='ega', screen=7, apage=2, vpage=2, view=[87, 52, 92, 71, False], last=[-320, -70000],
+              hist=[[8, None, 1, None], [None, None, 1, 0], [1, None, None, None], [7, None, None, None]],
+              stmt={'k': 'paint', 'x': 0, 'y': 13, 'c': 3, 'tile': [233], 'prebox': [-1, 5, 8, 18]}),
             # seeded C30e: VIEW while page 0 is active, then SCREEN ,,1,0 (no mode change), then drawing on page 1
             c(video='ega', screen=7, apage=1, vpage=0, view=[50, 40, 100, 90, True], view_page=2,
               stmt={'k': 'line', 'x0': 0, 'y0': 0, 'x1': 319, 'y1': 199, 'c': 5, 'shape': 'BF'}),
@@ -240,7 +245,7 @@ class C30(core.Check):
             small = (x1 - x0) * (y1 - y0) <= 3000
             if small and rng.random() < 0.5:
                 d['tile'] = [rng.randrange(256) for _ in range(rng.choice([1, 2, 3, 4, 8]))]
-            if rng.random() < 0.5 and hix >= 4 and hiy >= 4:
+            if rng.random() < 0.5 and hix >= 4 and hiy >= 4 and not d.get('tile'):
                 # an outline in the border colour inside the viewport (partly outside it), drawn before the PAINT:
                 # the fill must stop at it and at the viewport edge
                 d['prebox'] = [rng.randint(-3, hix), rng.randint(-3, hiy), rng.randint(0, hix + 3),
@@ -547,7 +552,9 @@ class C30(core.Check):
                     pix = disp.pages[p]._pixels
                     if bytes(pix.to_bytes()) != bytes([case['bg']]) * (pix.width * pix.height):
                         pix[:, :] = case['bg']
-            if st['k'] == 'paint' and st.get('prebox') and not case.get('window'):
+            if st['k'] == 'paint' and st.get('prebox') and not case.get('window') and not st.get('tile'):
+                # (not with a tile: the statement then has no colour argument, its border is the foreground attribute,
+                # the outline would not be a border and its pixels would be overwritten - the model replays on a blank page)
                 bcol = st.get('border') if st.get('border') is not None else st.get('c')
                 if bcol is not None and bcol != case['bg']:
                     pb = st['prebox']
